@@ -302,6 +302,21 @@ static Json header_damage(G &g, u64 flen, bool allow_semantic) {
     } else fx.push(fx_flip((i64) r.below(640)));
     if (r.chance(1, 8)) fx.push(fx_flip((i64) r.below(640)));
     if (r.chance(1, 10)) fx.push(fx1("endian"));
+    if (r.chance(1, 5)) {
+        // compositions around the byte-order branch: a foreign-endian header whose (logical) writer version sits on either
+        // side of the 1.2.0 gate, with a CRC that is right, stale, or of the historical flavour
+        static const u32 vs[] = {0x010000, 0x010001, 0x010105, 0x010100, 0x0101ff, 0x010200, 0x010201, 0x010604, 0x020000, 0x030000, 0x000001, 0x7f0000};
+        Json c = Json::arr();
+        bool first = r.chance(1, 2);
+        if (first) c.push(fx1("endian"));
+        c.push(fx_field("libver", vs[r.below(12)], (int) r.below(3)));
+        if (!first) c.push(fx1("endian"));
+        unsigned y = (unsigned) r.below(4);
+        if (y == 0) c.push(fx_field("metacrc", (i64) (r.next() & 0xffffffffu), 0));
+        else if (y == 1) c.push(fx_flip((i64) r.below(ref::META * 8)));
+        else if (y == 2) c.push(fx1("legacyseal"));
+        return c;
+    }
     return fx;
 }
 static Json payload_damage(G &g, u64 flen) {
